@@ -25,6 +25,20 @@ theorem delimHead_cons (c : UInt8) (t : Bytes) (h : isDelim c = true) : DelimHea
 theorem delim_other : ∀ c : UInt8, isDelim c = true → cls c = .other := by
   apply forall_u8; decide +kernel
 
+/-- what follows the value `v` does not extend it: only numbers are not self-terminating, so the condition is
+that a number followed by a byte `c` is no longer a prefix of any number ("maximal munch") -/
+def Follow (v rest : Bytes) : Prop := JNumber v → ∀ c t, rest = c :: t → ¬ NumPrefix (v ++ [c])
+
+theorem step_other' (s : St) : step s .other = .dead := by cases s <;> rfl
+
+theorem follow_of_delim (v rest : Bytes) (h : DelimHead rest) : Follow v rest := by
+  intro _ c t hr
+  have hc := delim_other c (h c t hr)
+  rw [numPrefix_iff_live, run_append]
+  simp [run, δ, hc, step_other']
+
+theorem follow_nil (v : Bytes) : Follow v [] := by intro _ c t h; cases h
+
 /-- the bytes a value can start with -/
 def isStart (c : UInt8) : Bool :=
   let k := normKind c
@@ -52,26 +66,9 @@ theorem literal_complete (lit rest : Bytes) (hl : lit ≠ []) : valueLiteral lit
   have hne : lit.length ≠ 0 := by simpa using hl
   simp [this, hne]
 
-theorem jnumber_head (v : Bytes) (h : JNumber v) : ∃ c t, v = c :: t ∧ normKind c = 0x30 := by
-  have hk : ∀ c : UInt8, (c == 0x2D || isDigit c) = true → normKind c = 0x30 := by
-    intro c hc; simp [normKind, hc]
-  cases h with
-  | mk minus int frac exp hm hi hf hx =>
-    rcases hm with rfl | rfl
-    · cases hi with
-      | zero => exact ⟨0x30, frac ++ exp, by simp, by decide⟩
-      | nonzero d ds hd hds =>
-        refine ⟨d, ds ++ (frac ++ exp), by simp, hk d ?_⟩
-        have := (digit19_iff d).1 hd
-        rw [cls_d19] at this
-        rw [cls_minus, cls_digit]
-        generalize cls d = k at this
-        cases k <;> simp_all
-    · exact ⟨0x2D, int ++ (frac ++ exp), by simp, by decide⟩
-
 theorem step_other (s : St) : step s .other = .dead := by cases s <;> rfl
 
-theorem number_complete (v rest : Bytes) (h : JNumber v) (hd : DelimHead rest) :
+theorem number_complete (v rest : Bytes) (h : JNumber v) (hd : Follow v rest) :
     consumeNumber (v ++ rest) = (v.length, .ok) := by
   have hg := good_consumeNumber (v ++ rest)
   have hacc : acc (run .start ((v ++ rest).take v.length)) = true := by
@@ -81,16 +78,16 @@ theorem number_complete (v rest : Bytes) (h : JNumber v) (hd : DelimHead rest) :
     | nil => left; simp
     | cons c t =>
       right
-      have hc := delim_other c (hd c t rfl)
+      have hc := hd h c t rfl
       have : (v ++ c :: t).take (v.length + 1) = v ++ [c] := by
-        have h1 : v.length + 1 = v.length + 1 := rfl
         rw [List.take_add]; simp
-      rw [this, run_append]
-      simp [run, δ, hc, step_other]
+      rw [this]
+      rw [numPrefix_iff_live] at hc
+      simpa using hc
   have := scan_unique (v ++ rest) v.length (by simp) hacc hstop _ _ hg
   exact Prod.ext this.2 this.1
 
-theorem valueNumber_complete (v rest : Bytes) (h : JNumber v) (hd : DelimHead rest) :
+theorem valueNumber_complete (v rest : Bytes) (h : JNumber v) (hd : Follow v rest) :
     valueNumber (v ++ rest) = (v.length, .ok) := by
   have hcn := number_complete v rest h hd
   unfold valueNumber
@@ -134,7 +131,7 @@ theorem valueString_complete (o : VOpts) (p rest : Bytes) (h : JString (!o.allow
 
 /-- `consumeValue` accepts `v`, whatever delimiter-headed input follows it, given enough fuel -/
 def CV (o : VOpts) (d : Nat) (v : Bytes) : Prop :=
-  ∀ rest fuel, DelimHead rest → 3 * (v ++ rest).length + 1 ≤ fuel →
+  ∀ rest fuel, Follow v rest → 3 * (v ++ rest).length + 1 ≤ fuel →
     consumeValue o fuel (d + 1) (v ++ rest) = (v.length, .ok)
 
 def Starts (v : Bytes) : Prop := ∃ c t, v = c :: t ∧ isStart c = true
@@ -163,7 +160,7 @@ theorem elem_facts (o : VOpts) (d f : Nat) (w1 val w2 : Bytes) (sep : UInt8) (ta
     intro c' t' h
     simp only [List.cons_append, List.cons.injEq] at h
     rw [← h.1]; exact (start_facts c hc).1
-  · exact hcv _ f (delimHead_ws_sep w2 sep tail hw2 hsep) hfuel
+  · exact hcv _ f (follow_of_delim _ _ (delimHead_ws_sep w2 sep tail hw2 hsep)) hfuel
   · apply ws_exact _ _ hw2
     intro c' t' h
     simp only [List.cons.injEq] at h
@@ -303,7 +300,7 @@ theorem member_step (o : VOpts) (d f : Nat) (names : List Bytes) (w1 name w2 w3 
     rw [← hC3]; apply ws_exact _ _ hw4
     intro c t h; simp only [List.cons.injEq] at h; rw [← h.1]; exact hsepw
   have hcvv : consumeValue o f (d + 2) (val ++ C3) = (val.length, .ok) := by
-    rw [← hC3]; exact hcv _ f (delimHead_ws_sep w4 sep tail hw4 hsep) (by rw [hC3]; exact hfuel)
+    rw [← hC3]; exact hcv _ f (follow_of_delim _ _ (delimHead_ws_sep w4 sep tail hw4 hsep)) (by rw [hC3]; exact hfuel)
   have h1 : (w1 ++ (name ++ C1)).drop (consumeWhitespace (w1 ++ (name ++ C1))) = 0x22 :: (body ++ [0x22] ++ C1) := by
     rw [f1, ← hnt]; simp
   have h4 : ((0x22 :: (body ++ [0x22] ++ C1)).drop name.length).drop
@@ -647,7 +644,7 @@ theorem delimHead_ws (w : Bytes) (hw : JWs w) : DelimHead w := by
 
 /-- one top-level read of `w ++ v ++ rest` (blanks, a value of the grammar, then nothing or a delimiter) -/
 theorem readValueTop_complete (o : VOpts) (fuel : Nat) (w v rest : Bytes) (hw : JWs w)
-    (hv : JValue (G o) maxNestingDepth (nameKey o) 0 v) (hd : DelimHead rest)
+    (hv : JValue (G o) maxNestingDepth (nameKey o) 0 v) (hd : Follow v rest)
     (hf : 3 * (v ++ rest).length + 1 ≤ fuel) :
     readValueTop o fuel (w ++ (v ++ rest)) = (w.length + v.length, .ok) := by
   obtain ⟨hcv, c, t, hval, hc⟩ := value_complete o 0 v hv
@@ -670,7 +667,7 @@ theorem readValueTop_complete (o : VOpts) (fuel : Nat) (w v rest : Bytes) (hw : 
 theorem validText_complete (o : VOpts) (b : Bytes) (h : JText (G o) maxNestingDepth (nameKey o) b) :
     validText o b = (b.length, .ok) := by
   obtain ⟨w1, v, w2, hw1, hv, hw2, rfl⟩ := h
-  have hr := readValueTop_complete o (fuelFor (w1 ++ v ++ w2)) w1 v w2 hw1 hv (delimHead_ws w2 hw2)
+  have hr := readValueTop_complete o (fuelFor (w1 ++ v ++ w2)) w1 v w2 hw1 hv (follow_of_delim _ _ (delimHead_ws w2 hw2))
     (by simp [fuelFor]; omega)
   have happ : w1 ++ v ++ w2 = w1 ++ (v ++ w2) := by simp
   unfold validText
@@ -683,5 +680,49 @@ theorem validText_complete (o : VOpts) (b : Bytes) (h : JText (G o) maxNestingDe
     simpa using this
   simp [hdrop, hws]
   omega
+
+/-! ### streams -/
+
+theorem readValueTop_ws (o : VOpts) (fuel : Nat) (w : Bytes) (hw : JWs w) : readValueTop o fuel w = (w.length, .ioEOF) := by
+  have hws : consumeWhitespace w = w.length := by
+    have := ws_exact w [] hw (by intro c t h; cases h); simpa using this
+  unfold readValueTop
+  simp [hws]
+
+theorem streamLoop_complete (o : VOpts) (vfuel : Nat) (b : Bytes)
+    (h : JStream (G o) maxNestingDepth (nameKey o) b) :
+    ∀ fuel cnt base, 3 * b.length + 1 ≤ vfuel → b.length + 1 ≤ fuel →
+      ∃ k, streamLoop o vfuel fuel b cnt base = (cnt + k, base + b.length, .ioEOF) := by
+  induction h with
+  | done w hw =>
+    intro fuel cnt base _ hf
+    cases fuel with
+    | zero => omega
+    | succ f => exact ⟨0, by simp [streamLoop, readValueTop_ws o vfuel w hw]⟩
+  | next w v rest hw hv hmax _ ih =>
+    intro fuel cnt base hvf hf
+    cases fuel with
+    | zero => omega
+    | succ f =>
+      have hr := readValueTop_complete o vfuel w v rest hw hv hmax (by simp at hvf ⊢; omega)
+      obtain ⟨-, c, t, hval, -⟩ := value_complete o 0 v hv
+      have hvpos : 1 ≤ v.length := by rw [hval]; simp
+      have hdrop : (w ++ (v ++ rest)).drop (w.length + v.length) = rest := by
+        rw [← List.append_assoc, ← List.length_append]; simp
+      obtain ⟨k, hk⟩ := ih f (cnt + 1) (base + (w.length + v.length)) (by simp at hvf ⊢; omega) (by simp at hf ⊢; omega)
+      refine ⟨k + 1, ?_⟩
+      have happ : w ++ v ++ rest = w ++ (v ++ rest) := by simp
+      rw [happ]
+      simp only [streamLoop, hr, hdrop, hk]
+      have hne : ¬ (w.length + v.length = 0) := by omega
+      have hne2 : ¬ (w = [] ∧ v = []) := by rintro ⟨-, hv0⟩; rw [hv0] at hvpos; simp at hvpos
+      simp [hne2]
+      omega
+
+/-- Completeness of the stream recogniser: a stream of the grammar is read to a clean io.EOF at its very end. -/
+theorem stream_complete (o : VOpts) (b : Bytes) (h : JStream (G o) maxNestingDepth (nameKey o) b) :
+    ∃ cnt, stream o b = (cnt, b.length, .ioEOF) := by
+  obtain ⟨k, hk⟩ := streamLoop_complete o (fuelFor b) b h (b.length + 1) 0 0 (by simp [fuelFor]) (Nat.le_refl _)
+  exact ⟨k, by simpa [stream] using hk⟩
 
 end JsonV.Lemmas.WireComplete
